@@ -26,6 +26,7 @@
   Property theorems only (helper lemmas live in Proofs/RoundTrip.lean, Proofs/ScanString.lean and
   Proofs/PrintRead*.lean).
 -/
+import LispModel.Proofs.IntArithLaws
 import LispModel.Read
 import LispModel.Print
 import LispModel.Spec.Readable
@@ -293,5 +294,16 @@ theorem keyword_named_with_marker_round_trips :
     (Print.print (Kw "ʞx") == ":ʞx".toList && readsAs (utf8Of (Print.print (Kw "ʞx"))) (Kw "ʞx") &&
      readsAs (bytes% ":ʞx") (Kw "ʞx") && !readsAs (bytes% ":ʞx") (Kw "x")) = true :=
   Proofs.SeedLaws.C06.keyword_named_with_marker_round_trips
+
+
+open LispModel.IntArith in
+/-- every 64-bit integer — `math.MinInt64` included — reads back from its printed form through the mirror of
+    `strconv.ParseInt(s, 0, 0)` (sign, base prefixes, underscores, cutoff test), and whatever that accepts is in range -/
+theorem integer_print_then_parse {i : Int} (h : inRange i) : parseIntLit (printInt i) = .ok i :=
+  parse_print_roundtrip h
+
+open LispModel.IntArith in
+theorem integer_literals_are_in_range {s : String} {i : Int} (h : parseIntLit s = .ok i) : inRange i :=
+  parseIntLit_range h
 
 end LispModel.Props.C06
